@@ -105,7 +105,8 @@ def get_adjusted_url(url: str, addr: AddressTupleVXType) -> str:
     except ValueError:
         return url
 
-    if not address.is_link_local:
+    if address.version != 6 or not address.is_link_local:
+        # Only IPv6 link-local addresses are scoped.
         return url
 
     try:
